@@ -196,3 +196,22 @@ Theorem C11_py_bridge_p_ssubst : forall se ss f t x b, cfp se ss t = true -> mem
   p_ssubst f t x b = p_ssubst (with_keep f) t x b.
 Proof. exact p_ssubst_bridge. Qed.
 Print Assumptions C11_py_inst_compose_current_code.
+
+(** ================================================================================================
+    C11_source_*: the theorems stated of the functions GENERATED from the current source
+    (coq/Gen/PyPattern.v, rewritten from pattern.py / basic_interpreter.py on every run by translators/pypattern.py;
+    agreement with the model: coq/Py/GenPyPatternAgree.v). *)
+From Pi2 Require Import Py.GenSupport Gen.PyPattern Py.GenPyPatternAgree Py.SourceFacts.
+Theorem C11_source_py_inst_through_notation : forall se ss n p d r, corner_free se ss p = true -> cfd se ss d = true ->
+  src_instantiate n p d = Some r ->
+  expand flags_current r = p_inst flags_current (expand flags_current p) (expand_delta flags_current d).
+Proof. exact source_inst_expand. Qed.
+Theorem C11_source_py_esubst_through_notation : forall se ss n p x g r, corner_free se ss p = true -> mem x se = true ->
+  corner_free se ss g = true -> src_apply_esubst n p x g = Some r ->
+  expand flags_current r = p_esubst flags_current (expand flags_current p) x (expand flags_current g).
+Proof. exact source_esubst_expand. Qed.
+Theorem C11_source_py_ssubst_through_notation : forall se ss n p x g r, corner_free se ss p = true -> mem x ss = true ->
+  corner_free se ss g = true -> src_apply_ssubst n p x g = Some r ->
+  expand flags_current r = p_ssubst flags_current (expand flags_current p) x (expand flags_current g).
+Proof. exact source_ssubst_expand. Qed.
+Print Assumptions C11_source_py_inst_through_notation.
